@@ -413,10 +413,20 @@ def _periodic(srf, ref, case, rec, tags, where, seed=None):
             blocks.append(P + (m * L[i]) * R[:, i : i + 1])
             keys.append((i, m))
     pos = np.concatenate(blocks, axis=1)
+    last = getattr(srf, "_verif_last_pos", None)
+    args = (pos,)
+    if last is not None and last.shape == pos.shape and bool(np.array_equal(last, pos)):
+        # the very same points as in the previous request (e.g. only the anisotropy ratios changed in between): rely on the stored positions
+        args = ()
+        rec.label("call_on_stored_positions")
     if seed is None:
-        f = lib(srf, pos, _what="SRF call", _tags=tags)
+        f = lib(srf, *args, _what="SRF call", _tags=tags)
     else:
-        f = lib(srf, pos, seed=seed, _what="SRF call", _tags=tags)
+        f = lib(srf, *args, seed=seed, _what="SRF call", _tags=tags)
+    try:
+        srf._verif_last_pos = pos.copy()
+    except Exception:  # noqa: BLE001
+        pass
     f = np.asarray(f, dtype=float).reshape(-1)
     require(f.shape[0] == pos.shape[1], f"{where}: field has {f.shape[0]} values for {pos.shape[1]} points", dict(tags, kind="shape"))
     if not np.all(np.isfinite(f)):
@@ -726,7 +736,12 @@ def _base_field(srf, ref, case):
     """Field at the case's base points for the current settings (used to compare before / after a refused op)."""
     U = np.array(case["u"], dtype=float).reshape(ref.dim, -1)
     P = ref.rotation() @ (U * ref.period[:, None])
-    return np.array(srf(P), dtype=float).reshape(-1)
+    out = np.array(srf(P), dtype=float).reshape(-1)
+    try:
+        srf._verif_last_pos = None  # the object now keeps these points
+    except Exception:  # noqa: BLE001
+        pass
+    return out
 
 
 def _require_unchanged(before, srf, ref, case, what, tags):
